@@ -11,22 +11,25 @@ contract(F, "CoordPayload.__iter__", inline=True)
 OPERANDS = [dict(self="CoordPayload", other="CoordPayload"), dict(self="CoordPayload", other="Payload"),
             dict(self="CoordPayload", other="U")]
 OPNAMES = ["elem", "box", "scalar"]
+# element forms of C11 are about leaf elements: the element's payload is a box
+LEAF = ["typeis(self.payload, 'Payload')"]
+LEAF2 = {"elem": dict(requires=["typeis(other.payload, 'Payload')"])}
 RHS = {"elem": "old(other.payload.value)", "box": "old(other.value)", "scalar": "other"}
 
 BIN = {"__add__": ("+", dict(add="1")), "__sub__": ("-", {}), "__mul__": ("*", dict(mul="1")),
        "__truediv__": ("/", {})}
 for name, (op, cnt) in BIN.items():
-    contract(F, "CoordPayload." + name, cases=OPERANDS, case_names=OPNAMES, returns="Payload",
+    contract(F, "CoordPayload." + name, cases=OPERANDS, case_names=OPNAMES, returns="Payload", requires=LEAF,
              modifies=COUNTERS,
              ensures={"C11": ["fresh(result)", "self.payload is old(self.payload)",
                               "self.payload.value == old(self.payload.value)"],
                       "C15": counts(**cnt)},
-             per_case={n: dict(ensures=["result.value == old(self.payload.value) %s %s" % (op, RHS[n])]) for n in OPNAMES})
+             per_case={n: dict(requires=(LEAF2.get(n, {}).get('requires', [])), ensures=["result.value == old(self.payload.value) %s %s" % (op, RHS[n])]) for n in OPNAMES})
 
 RBIN = {"__radd__": ("+", dict(add="1")), "__rsub__": ("-", {}), "__rmul__": ("*", dict(mul="1")),
         "__rtruediv__": ("/", {})}
 for name, (op, cnt) in RBIN.items():
-    contract(F, "CoordPayload." + name, types=dict(self="CoordPayload", other="U"), returns="Payload",
+    contract(F, "CoordPayload." + name, types=dict(self="CoordPayload", other="U"), returns="Payload", requires=LEAF,
              modifies=COUNTERS,
              ensures={"C11": ["fresh(result)", "result.value == other %s old(self.payload.value)" % op,
                               "self.payload.value == old(self.payload.value)"],
@@ -37,21 +40,21 @@ IBIN = {"__iadd__": ("+", dict(update="1", add="(1 if old(self.payload.value) !=
         "__imul__": ("*", dict(mul="1", update="1")),
         "__itruediv__": ("/", {})}
 for name, (op, cnt) in IBIN.items():
-    contract(F, "CoordPayload." + name, cases=OPERANDS, case_names=OPNAMES, returns="CoordPayload",
+    contract(F, "CoordPayload." + name, cases=OPERANDS, case_names=OPNAMES, returns="CoordPayload", requires=LEAF,
              modifies=COUNTERS + ["self.payload.value", "self.payload"],
              ensures={"C11 C03": ["result is self", "self.payload is old(self.payload)", "self.coord == old(self.coord)"],
                       "C15": counts(**cnt)},
-             per_case={n: dict(ensures=["self.payload.value == old(self.payload.value) %s %s" % (op, RHS[n])]) for n in OPNAMES})
+             per_case={n: dict(requires=(LEAF2.get(n, {}).get('requires', [])), ensures=["self.payload.value == old(self.payload.value) %s %s" % (op, RHS[n])]) for n in OPNAMES})
 
-contract(F, "CoordPayload.__ilshift__", cases=OPERANDS, case_names=OPNAMES, returns="CoordPayload",
+contract(F, "CoordPayload.__ilshift__", cases=OPERANDS, case_names=OPNAMES, returns="CoordPayload", requires=LEAF,
          modifies=COUNTERS + ["self.payload.value", "self.payload"],
          ensures={"C11 C03": ["result is self", "self.payload is old(self.payload)", "self.coord == old(self.coord)"],
                   "C15": counts(update="1")},
-         per_case={n: dict(ensures=["self.payload.value == %s" % RHS[n]]) for n in OPNAMES})
+         per_case={n: dict(requires=(LEAF2.get(n, {}).get('requires', [])), ensures=["self.payload.value == %s" % RHS[n]]) for n in OPNAMES})
 
 CMP = {"__eq__": "==", "__ne__": "!=", "__lt__": "<", "__le__": "<=", "__gt__": ">", "__ge__": ">="}
 CRHS = {"elem": "other.payload.value", "box": "other.value", "scalar": "other"}
 for name, op in CMP.items():
-    contract(F, "CoordPayload." + name, cases=OPERANDS, case_names=OPNAMES, returns="bool", modifies=[],
+    contract(F, "CoordPayload." + name, cases=OPERANDS, case_names=OPNAMES, returns="bool", modifies=[], requires=LEAF,
              ensures={"C11": []},
-             per_case={n: dict(ensures=["result == (self.payload.value %s %s)" % (op, CRHS[n])]) for n in OPNAMES})
+             per_case={n: dict(requires=(LEAF2.get(n, {}).get('requires', [])), ensures=["result == (self.payload.value %s %s)" % (op, CRHS[n])]) for n in OPNAMES})
